@@ -139,17 +139,18 @@ func (dec *Decoder) applyInverseTransforms(pixels []uint32) []uint32 {
 		out = make([]uint32, numPix)
 	}
 
+	// Ping-pong between the two buffers: the colour-indexing transform expands
+	// packed pixels and is not safe to run with input and output in the same
+	// buffer, so no transform may read the buffer it writes.
 	for n := dec.nextTransform - 1; n >= 0; n-- {
 		t := &dec.transforms[n]
 		inverseTransform(t, 0, t.YSize, rows, out)
-		rows = out
+		rows, out = out, rows
 	}
 
-	if dec.nextTransform == 0 {
-		// No transforms: output is the original pixels.
-		return pixels
-	}
-	return out[:numPix]
+	// rows holds the output of the last transform applied (or the original
+	// pixels when there was none).
+	return rows[:numPix]
 }
 
 // inverseTransform applies a single inverse transform to the pixel data.
